@@ -294,7 +294,8 @@ impl Scenario for ChClose {
     fn variants(&self, tier: &str) -> Vec<Value> {
         let mut v = Vec::new();
         for n in [1u16, 2, 3] {
-            for state in ["idle", "inflight", "halfcontent", "consumers", "crossing"] {
+            // idleclose: the first call made on the closed channel is Channel::close itself
+            for state in ["idle", "inflight", "halfcontent", "consumers", "crossing", "idleclose"] {
                 if tier != "thorough" && !(n == 1 || (n == 2 && state == "inflight") || (n == 3 && state == "idle")) {
                     continue;
                 }
@@ -396,7 +397,7 @@ impl Scenario for ChClose {
                                 ctx.log(format!("delete -> {:?}", r.map_err(|e| err_name(&e))));
                             } else if state == "crossing" {
                                 // the client closes the channel itself; the server's close may cross it
-                            } else if state == "idle" {
+                            } else if state == "idle" || state == "idleclose" {
                                 // virtual time only passes once nothing else can happen, i.e.
                                 // after the server's close has been pushed and handled
                                 ctx.sleep_ms(10);
@@ -407,7 +408,7 @@ impl Scenario for ChClose {
                                 }
                             }
                             // next calls after the close
-                            if state != "crossing" {
+                            if state != "crossing" && state != "idleclose" {
                                 let r = ch.qos(0, 1, false);
                                 ctx.log(format!("next -> {:?}", r.map_err(|e| err_name(&e))));
                                 let r = ch.qos(0, 1, false);
@@ -486,12 +487,13 @@ impl Scenario for ChClose {
                         v.push(("chclose:other-channel-disturbed".into(), format!("channel {} (not closed): {}", chan, l)));
                     }
                 }
-            } else if closed && state == "crossing" {
-                // both sides closed channel n at about the same time: the client's close either
-                // completed or reports the server's close; nothing else may be disturbed
-                let ok = log.iter().any(|l| l == "chclose -> Ok(())" || *l == format!("chclose -> Err(\"ServerClosedChannel({},406,PRECONDITION_FAILED)\")", n));
+            } else if closed && (state == "crossing" || state == "idleclose") {
+                // the client's own Channel::close is the call in flight (crossing) or the next call
+                // (idleclose) when the server closes channel n: it is that call which reports the
+                // server's close (the server's Close always precedes its CloseOk in the stream)
+                let ok = log.iter().any(|l| *l == format!("chclose -> Err(\"ServerClosedChannel({},406,PRECONDITION_FAILED)\")", n));
                 if !ok {
-                    v.push(("chclose:crossing-close-result".into(), format!("channel {}: {:?}", n, log)));
+                    v.push(("chclose:close-call-result".into(), format!("channel {} (state {}): Channel::close was the first call to meet the server's close and must report it: {:?}", n, state, log)));
                 }
             } else if closed {
                 // first failing call names the cause; later calls keep failing
@@ -602,7 +604,9 @@ impl Scenario for PubWire {
         "C02"
     }
     fn variants(&self, _tier: &str) -> Vec<Value> {
-        vec![json!({"stall": null}), json!({"stall": 400}), json!({"stall": 5000})]
+        // cancel: channel 1 also has a consumer, which the server cancels at any point; the client's
+        // CancelOk belongs to channel 1's frames and must not split a message
+        vec![json!({"stall": null}), json!({"stall": 400}), json!({"stall": 5000}), json!({"stall": null, "cancel": true})]
     }
     fn bound(&self, tier: &str, _p: &Value) -> usize {
         if tier == "thorough" {
@@ -617,9 +621,13 @@ impl Scenario for PubWire {
     fn build(&self, p: &Value) -> Built {
         let mut hs = Handshake::default();
         hs.tune = (2047, 4096, 0);
-        let broker = StdBroker::new(hs);
+        let mut broker = StdBroker::new(hs);
+        let cancel = p["cancel"] == true;
+        if cancel {
+            broker.pushes.push(Push::new("srv-cancel", vec![AMQPFrame::Method(1, AMQPClass::Basic(basic::AMQPMethod::Cancel(basic::Cancel { consumer_tag: "ctag-1-2".into(), nowait: false })))]).when_channel(1, 2));
+        }
         let mut cfg = EnvConfig::default();
-        cfg.write_cuts = true;
+        cfg.write_cuts = !cancel;
         cfg.write_cut_limit = 2;
         cfg.grant_menu = vec![1];
         if let Some(n) = p["stall"].as_u64() {
@@ -640,12 +648,15 @@ impl Scenario for PubWire {
                 for chan in 1..=2u16 {
                     let ch = conn.open_channel(Some(chan)).expect("open_channel");
                     actors.push(ctx.spawn(&format!("w{}", chan), move |ctx| {
-                        for (k, len) in PUBWIRE_LENS.iter().enumerate() {
+                        let cons = if cancel && chan == 1 { Some(ch.basic_consume("q", ConsumerOptions::default())) } else { None };
+                        let lens: &[usize] = if cancel { &PUBWIRE_LENS[..3] } else { &PUBWIRE_LENS[..] };
+                        for (k, len) in lens.iter().enumerate() {
                             let body = pubwire_body(chan, k, *len);
                             let publish = Publish { body: &body, routing_key: format!("rk{}", k), mandatory: k % 2 == 1, immediate: k % 4 >= 2, properties: pubwire_props(k) };
                             let r = ch.basic_publish(format!("ex{}", chan), publish);
                             ctx.log(format!("publish{} -> {}", k, res(&r)));
                         }
+                        std::mem::forget(cons);
                         let r = ch.close();
                         ctx.log(format!("chclose -> {}", res(&r)));
                     }));
@@ -658,8 +669,10 @@ impl Scenario for PubWire {
             }),
         }
     }
-    fn check(&self, _p: &Value, o: &Outcome, _w: &World) -> Vec<(String, String)> {
+    fn check(&self, p: &Value, o: &Outcome, _w: &World) -> Vec<(String, String)> {
         use amq_protocol::frame::AMQPFrame as F;
+        let cancel = p["cancel"] == true;
+        let lens: &[usize] = if cancel { &PUBWIRE_LENS[..3] } else { &PUBWIRE_LENS[..] };
         let mut v = Vec::new();
         let (envs, rest) = wire_frames(o);
         if rest != 0 {
@@ -667,7 +680,7 @@ impl Scenario for PubWire {
         }
         for chan in 1..=2u16 {
             let log = o.logs.get(&format!("w{}", chan)).cloned().unwrap_or_default();
-            if log.len() != PUBWIRE_LENS.len() + 1 || log.iter().any(|l| !l.ends_with("-> Ok")) {
+            if log.len() != lens.len() + 1 || log.iter().any(|l| !l.ends_with("-> Ok")) {
                 v.push(("pubwire:publisher-failed".into(), format!("publisher {} log {:?}", chan, log)));
                 continue;
             }
@@ -680,8 +693,16 @@ impl Scenario for PubWire {
             }
             i += 1;
             let mut ok = true;
-            for (k, len) in PUBWIRE_LENS.iter().enumerate() {
+            // between two messages (never inside one) the channel's other frames may appear: the
+            // consume request and the answer to the server's cancel
+            let skip_other = |i: &mut usize| {
+                while frames.get(*i).map(|e| is_method(e, 60, 20) || is_method(e, 60, 31)).unwrap_or(false) {
+                    *i += 1;
+                }
+            };
+            for (k, len) in lens.iter().enumerate() {
                 let body = pubwire_body(chan, k, *len);
+                skip_other(&mut i);
                 match frames.get(i).and_then(|e| e.decode()) {
                     Some(F::Method(_, AMQPClass::Basic(basic::AMQPMethod::Publish(m)))) => {
                         if m.exchange != format!("ex{}", chan) || m.routing_key != format!("rk{}", k) || m.mandatory != (k % 2 == 1) || m.immediate != (k % 4 >= 2) {
@@ -736,7 +757,9 @@ impl Scenario for PubWire {
                     break;
                 }
             }
-            if ok && !(frames.get(i).map(|e| is_method(e, 20, 40)).unwrap_or(false) && i + 1 == frames.len()) {
+            let rest = &frames[i.min(frames.len())..];
+            let tail_ok = rest.iter().filter(|e| is_method(e, 20, 40)).count() == 1 && rest.iter().all(|e| is_method(e, 20, 40) || is_method(e, 60, 20) || is_method(e, 60, 31));
+            if ok && !tail_ok {
                 fail(format!("after the last message: expected Channel.Close and nothing else, found {} more frames", frames.len() - i));
             }
         }
